@@ -116,6 +116,8 @@ impl LoadBalancer {
       if !self.state.lock().peers.is_empty() {
         return Ok(());
       }
+      #[cfg(any(rzmq_verif, kani))]
+      crate::verif_facade::sched_point("LoadBalancer::wait_for_connection:after-check");
       notify.notified().await;
     }
   }
